@@ -162,7 +162,7 @@ def reader_complete_rules(ck, d, P):
                     sb = storage_box(w)
                     if sb is not None:
                         post.append(le(gse - L - 2, d.I.seq_len(w, sb[1])))
-                    zero_fact = any(isinstance(k, tuple) and k and k[0] == 'eq' and v is True for k, v in w.facts.items())
+                    zero_fact = zero_array_established(w)
                     if nm == 'ErrorInvalidLabel' and zero_fact:
                         ck.discharged += 1       # only for the zero label, which encap refuses to emit (C09.R4)
                         continue
@@ -189,13 +189,12 @@ def writer_guard_rules(ck, P):
     nret = 0
     for lv in f.adts['label::Label']['variants']:
         def fix_label(I, w, args, body, _v=lv['idx']):
-            for i in range(1, body.arg_count + 1):
-                if body.local_names.get(i) == 'metadata':
-                    md = args[i - 1]
-                    lab = md[1][i_label]
-                    fl = list(md[1])
-                    fl[i_label] = ('enum', tuple((v, fs) for v, fs in lab[1] if v == _v))
-                    args[i - 1] = ('agg', tuple(fl))
+            i = param_index(body, 'metadata')
+            md = args[i - 1]
+            lab = md[1][i_label]
+            fl = list(md[1])
+            fl[i_label] = ('enum', tuple((v, fs) for v, fs in lab[1] if v == _v))
+            args[i - 1] = ('agg', tuple(fl))
         a = analyse_writer(ck, ENC + 'encap', tag=f"c01-{lv['name']}", extra={'ret_hooks': {ENC + 'check_label_re_use': clru_ret}, 'kslots': 24}, premise=fix_label)
         B, Pn = a.arg('buffer')[3], a.arg('pdu')[3]
         for w, rv in a.rets:
@@ -278,9 +277,11 @@ def run(ck):
     reader_complete_rules(ck, d, P)
     writer_guard_rules(ck, P)
     label_table_rules(ck, P)
+    # R7: the label of the round trip is the caller's label only if a re-use marker is written solely for the remembered label
+    c15.substitution_guard(ck, f'{P}.R7')
     ck.assumptions += ['equality of payload contents is reduced to: the same window of the same object is copied by copy_from_slice on both sides (writer: C06 layout rows; reader: R1), plus the trusted summary of copy_from_slice',
                        'the header bits round-trip by C14 (codec bijection); label bytes round-trip by R6 (Label::get_bytes / Label::new)',
-                       'extension-bearing complete packets are C13, re-use substituted labels C04']
+                       'extension-bearing complete packets are C13; for re-use substituted labels C01 decides only the substitution guard (R7), the resolution on the receiver side is C04']
     return ck.finish(
         level='other',
         explanation=('Structural agreement for the unfragmented round trip: (writer) encap writes header / protocol type / label / whole PDU at the ETSI '
